@@ -83,7 +83,12 @@ def recheck(name):
     meta = json.load(open(os.path.join(dst, "meta.json")))
     wt = f"/tmp/seedchk_{name}"
     sh(f"git -C /repo worktree remove --force {wt}")
-    rc, out = sh(f"git -C /repo worktree add -q --detach {wt} HEAD")
+    import time
+    for _ in range(10):
+        rc, out = sh(f"git -C /repo worktree add -q --detach {wt} HEAD")
+        if rc == 0 and os.path.isdir(wt):
+            break
+        time.sleep(1.0)
     try:
         rc, out = sh(f"git -C {wt} apply {dst}/patch.diff")
         if rc != 0:
@@ -105,7 +110,7 @@ if __name__ == "__main__":
     if sys.argv[1] == "recheck":
         from concurrent.futures import ThreadPoolExecutor
         names = sys.argv[2:] or sorted(os.listdir(os.path.join(VERIF, "seeded")))
-        with ThreadPoolExecutor(max_workers=8) as ex:
+        with ThreadPoolExecutor(max_workers=4) as ex:
             for line in ex.map(recheck, names):
                 print(line)
         sys.exit(0)
